@@ -24,6 +24,8 @@ type RelayAddressGeneratorStatic struct {
 	Address string
 
 	Net transport.Net
+
+	listenerPorts relayListenerPorts
 }
 
 // Validate is called on server startup and confirms the RelayAddressGenerator is properly configured.
@@ -89,7 +91,9 @@ func (r *RelayAddressGeneratorStatic) AllocateListener(conf AllocateListenerConf
 		// bind to the same relay address.
 		Control: reuseport.Control,
 	})
-	ln, err := listenConfig.Listen(context.TODO(), conf.Network, tcpAddr.String())
+	ln, err := r.listenerPorts.listen(conf.RequestedPort, func() (net.Listener, error) {
+		return listenConfig.Listen(context.TODO(), conf.Network, tcpAddr.String())
+	})
 	if err != nil {
 		return nil, nil, err
 	}
